@@ -3,7 +3,7 @@
 import re, subprocess
 p = "/verif/DESIGN.md"
 s = open(p).read()
-for rnd in (2, 3):
+for rnd in (2, 3, 4):
     rows = subprocess.run(["python3", "/verif/tools/seeded_table.py", str(rnd)], capture_output=True, text=True).stdout
     s = re.sub(r"(<!-- seeded:round%d -->\n).*?(<!-- /seeded:round%d -->)" % (rnd, rnd), lambda m: m.group(1) + rows + m.group(2), s, flags=re.S)
 open(p, "w").write(s)
